@@ -11,6 +11,8 @@ package main
 
 import (
 	"fmt"
+	"go/token"
+	"go/types"
 	"os"
 	"os/exec"
 	"path/filepath"
@@ -25,6 +27,7 @@ import (
 	"github.com/mmcloughlin/avo/pass"
 	"github.com/mmcloughlin/avo/printer"
 	"github.com/mmcloughlin/avo/reg"
+	"github.com/mmcloughlin/avo/x86"
 )
 
 // p11PrintAsm calls the real printer; a panic is the distinct outcome "panic".
@@ -79,6 +82,26 @@ func init() {
 		defer o.close()
 		r := newRng(*f.seed)
 		st := map[string]int{}
+		if lines, ok := p11CorpusLines(*f.replay); ok {
+			// corpus: `file <seed> <malformed 0|1> <long 0|1>` regenerates one file from its own seed
+			for _, l := range lines {
+				fs := strings.Fields(l)
+				if len(fs) != 4 || fs[0] != "file" {
+					continue
+				}
+				seed, err := strconv.ParseUint(fs[1], 10, 64)
+				if err != nil {
+					return fmt.Errorf("corpus line %q: %v", l, err)
+				}
+				cr := newRng(seed)
+				file := p11GenFile(cr, st, fs[2] == "1")
+				if fns := file.Functions(); len(fns) > 0 && fs[3] == "1" {
+					p11SpliceLongRun(cr, st, pick(cr, fns))
+				}
+				p11EmitPrint(o, p11GenConfig(cr), file, st)
+			}
+			return writeJSON(*f.stats, st)
+		}
 		// fixed corner cases first
 		for _, file := range p11CornerFiles() {
 			p11EmitPrint(o, printer.Config{Name: "avo", Pkg: "p"}, file, st)
@@ -86,12 +109,37 @@ func init() {
 		for k := 0; k < *f.n; k++ {
 			malformed := k%5 == 4
 			file := p11GenFile(r, st, malformed)
+			if r.chance(1, 15) {
+				// many sections (the base generator stops at 4)
+				for j, m := len(file.Sections), r.rangeIn(5, 14); j < m; j++ {
+					if r.chance(7, 10) {
+						file.AddSection(p11GenFunction(r, st, malformed, j))
+					} else {
+						file.AddSection(p11GenGlobal(r, malformed, j))
+					}
+				}
+				st["files_over_4_sections"]++
+			}
+			if fns := file.Functions(); len(fns) > 0 && r.chance(1, 12) {
+				p11SpliceLongRun(r, st, pick(r, fns))
+			}
 			p11EmitPrint(o, p11GenConfig(r), file, st)
 			for _, s := range file.Sections {
 				switch s := s.(type) {
 				case *ir.Function:
 					st["functions"]++
 					st[fmt.Sprintf("nodes_%s", p11Bucket(len(s.Nodes)))]++
+					blk := 0
+					for _, n := range s.Nodes {
+						if in, ok := n.(*ir.Instruction); ok && !in.IsTerminal && !in.IsUnconditionalBranch() {
+							blk++
+							if blk == 65 {
+								st["blocks_over_64"]++
+							}
+						} else {
+							blk = 0
+						}
+					}
 					if s.Attributes != 0 {
 						st["fn_with_attrs"]++
 					}
@@ -109,6 +157,47 @@ func init() {
 		return writeJSON(*f.stats, st)
 	})
 	register("c11asm", "compiled programs through go tool asm and objdump", p11RunC11Asm)
+}
+
+// p11SpliceLongRun inserts, at a random position of the node list, a run of 65..400 instructions none of which
+// ends a block (not terminal, not an unconditional branch): one flush of more than 64 buffered instructions.
+func p11SpliceLongRun(r *rng, st map[string]int, fn *ir.Function) {
+	n := r.rangeIn(65, 140)
+	if r.chance(1, 4) {
+		n = r.rangeIn(141, 400)
+	}
+	var run []ir.Node
+	for len(run) < n {
+		i := p11GenInstr(r, st)
+		c := *i
+		c.IsTerminal = false
+		if c.IsBranch && !c.IsConditional {
+			c.IsConditional = true
+		}
+		run = append(run, &c)
+	}
+	at := r.intn(len(fn.Nodes) + 1)
+	nodes := append([]ir.Node{}, fn.Nodes[:at]...)
+	nodes = append(nodes, run...)
+	fn.Nodes = append(nodes, fn.Nodes[at:]...)
+	st["long_runs"]++
+}
+
+// p11CorpusLines: the lines of a corpus file (corpus/C11/*.txt, concatenated by the check).  A replay file written
+// by ./check (JSON) is not a corpus: the recorded run is regenerated from its seed and tier instead.
+func p11CorpusLines(path string) ([]string, bool) {
+	if path == "" {
+		return nil, false
+	}
+	data, err := os.ReadFile(path)
+	if err != nil || strings.HasPrefix(strings.TrimSpace(string(data)), "{") {
+		return nil, false
+	}
+	lines, err := readLines(path)
+	if err != nil {
+		return nil, false
+	}
+	return lines, true
 }
 
 func p11Bucket(n int) string {
@@ -153,12 +242,139 @@ func p11CornerFiles() []*ir.File {
 }
 
 // ---------------------------------------------------------------------------
+// c11asm: generated programs
 
-var p11ReUndef = regexp.MustCompile(`undefined label (\S+)`)
+// Label names the Go assembler reads as plain identifiers (measured: every one of them assembles to a
+// relative jump to the label).
+var p11AsmLabelPool = []string{"l0", "l1", "l2", "loop", "done", "L1", "tail_2", "again", "x", "end", "λabel", "é", "R16", "GO_ARGS", "true", "ret", "TEXT", "DATA_", "_", "a_very_long_label_name_with_many_parts_0123456789"}
+
+// Function and data symbol names: valid Go identifiers, including ones that are register names, pseudo-register
+// names or textflag.h macros when they stand alone (behind `·` they are ordinary symbol characters).
+var p11AsmFuncPool = []string{"f", "Add", "sum_avx2", "Σ", "AX", "SB", "NOSPLIT", "g", "_x", "R8", "a1", "long_function_name_with_many_parts"}
+var p11AsmDataPool = []string{"tbl", "consts", "k256", "Σtab", "AX", "mask_1", "DUPOK"}
+
+// p11Hazard: a label name that pass.Compile accepts without complaint but that the Go assembler does not read as
+// a label.  The class is a property of the NAME under the assembler's lexical rules (hand-tagged here,
+// independent of avo); what happens is measured.
+type p11Hazard struct{ name, class string }
+
+var p11HazardLabels = []p11Hazard{
+	// general registers: `JMP AX` is an indirect jump through the register (silent miscompile), `Jcc AX` is rejected
+	{"AX", "register"}, {"R8", "register"}, {"SP", "register"}, {"g", "register"},
+	// other registers: every branch is rejected
+	{"X0", "register"}, {"K1", "register"}, {"AL", "register"}, {"Z31", "register"}, {"CS", "register"}, {"TLS", "register"},
+	{"SB", "pseudo-register"}, {"FP", "pseudo-register"}, {"PC", "pseudo-register"},
+	// macros of textflag.h (the header is included whenever a section has a named flag)
+	{"NOSPLIT", "textflag-macro"}, {"DUPOK", "textflag-macro"}, {"NOFRAME", "textflag-macro"},
+	// not an identifier of the assembler's lexer
+	{"a.b", "not-identifier"}, {"x-1", "not-identifier"}, {"x+1", "not-identifier"}, {"a b", "not-identifier"},
+	{"1x", "not-identifier"}, {"a$b", "not-identifier"}, {"a(b)", "not-identifier"}, {"x,y", "not-identifier"},
+	// identifier characters the lexer rewrites (U+00B7 -> '.', U+2215 -> '/'): the reference no longer names the label
+	{"a·b", "lexer-rewritten"}, {"a∕b", "lexer-rewritten"},
+}
+
+func p11HazardClass(label string) string {
+	for _, h := range p11HazardLabels {
+		if h.name == label {
+			return h.class
+		}
+	}
+	return ""
+}
+
+// p11BranchTable: the branch opcodes of avo's instruction table, obtained behaviourally: every opcode of the
+// compiled table whose name starts with J and whose constructor accepts a label operand.  rel8only: the
+// constructor rejects a far relative offset (JCXZL, JCXZQ: only a short encoding exists).
+type p11BranchOp struct {
+	opcode   string
+	rel8only bool
+}
+
+var p11BranchOpsCache []p11BranchOp
+
+func p11BranchOps() []p11BranchOp {
+	if p11BranchOpsCache != nil {
+		return p11BranchOpsCache
+	}
+	seen := map[string]bool{}
+	for _, f := range x86.VerifForms() {
+		if seen[f.Opcode] || !strings.HasPrefix(f.Opcode, "J") {
+			continue
+		}
+		seen[f.Opcode] = true
+		if i, err := x86.VerifBuild(f.Opcode, nil, []operand.Op{operand.LabelRef("l")}); err != nil || i == nil {
+			continue
+		}
+		far, err := x86.VerifBuild(f.Opcode, nil, []operand.Op{operand.Rel(1 << 20)})
+		p11BranchOpsCache = append(p11BranchOpsCache, p11BranchOp{f.Opcode, err != nil || far == nil})
+	}
+	return p11BranchOpsCache
+}
+
+func p11Branch(ctx *build.Context, st map[string]int, opcode, label string) {
+	i, err := x86.VerifBuild(opcode, nil, []operand.Op{operand.LabelRef(label)})
+	if err != nil || i == nil {
+		st["branch_ctor_error"]++
+		return
+	}
+	ctx.Instruction(i)
+	st["asm_branches"]++
+	st["br_"+opcode]++
+}
+
+// p11ArgBytes: the argument size of a signature under the ABI0 stack layout, computed with go/types (gc/amd64
+// sizes) — an expectation independent of avo's gotypes package: parameters in order at their alignment, results
+// starting at the next multiple of the word size, no padding after the last result.
+func p11ArgBytes(expr string) (int, error) {
+	tv, err := types.Eval(token.NewFileSet(), nil, token.NoPos, expr)
+	if err != nil {
+		return 0, err
+	}
+	sig, ok := tv.Type.(*types.Signature)
+	if !ok {
+		return 0, fmt.Errorf("%q is not a signature", expr)
+	}
+	sizes := types.SizesFor("gc", "amd64")
+	off := int64(0)
+	place := func(t *types.Tuple) {
+		for i := 0; i < t.Len(); i++ {
+			ty := t.At(i).Type()
+			a := sizes.Alignof(ty)
+			off = (off + a - 1) / a * a
+			off += sizes.Sizeof(ty)
+		}
+	}
+	place(sig.Params())
+	if sig.Results().Len() > 0 {
+		off = (off + 7) / 8 * 8
+		place(sig.Results())
+	}
+	return int(off), nil
+}
+
+// p11Want: what the generator asked for, per function (by position in the file).
+type p11Want struct {
+	name        string
+	frame, args int
+}
+
+type p11AsmCase struct {
+	ctx  *build.Context
+	tag  string // "plain" | "hazard=<class>/<label-hex>/<opcode>" | "f10"
+	want []p11Want
+}
+
+var p11AsmAttrPool = []attr.Attribute{
+	0, attr.NOSPLIT, attr.NOSPLIT, attr.NOSPLIT | attr.NOFRAME, attr.DUPOK, attr.DUPOK | attr.NOSPLIT, attr.TOPFRAME | attr.NOSPLIT,
+	attr.WRAPPER, attr.NEEDCTXT | attr.NOSPLIT, 4096, attr.NOSPLIT | 4096, 128, attr.NOPROF | attr.REFLECTMETHOD, attr.NOFRAME,
+	attr.TOPFRAME | attr.NOSPLIT | attr.NOFRAME | attr.DUPOK,
+}
+
+var p11AsmDataAttrPool = []attr.Attribute{attr.RODATA | attr.NOPTR, attr.RODATA | attr.NOPTR, attr.NOPTR, attr.RODATA, 0, attr.DUPOK | attr.NOPTR}
 
 // asmInstrs: constructors whose output the Go assembler accepts with
 // physical registers.
-func p11GenAsmBody(r *rng, ctx *build.Context, st map[string]int, virt bool) {
+func p11GenAsmBody(r *rng, ctx *build.Context, st map[string]int, virt bool, globals []operand.Mem) {
 	gp := func() reg.Register {
 		return pick(r, []reg.Register{reg.RAX, reg.RBX, reg.RCX, reg.RDX, reg.RSI, reg.RDI, reg.R8, reg.R9, reg.R10, reg.R11})
 	}
@@ -180,6 +396,9 @@ func p11GenAsmBody(r *rng, ctx *build.Context, st map[string]int, virt bool) {
 	ymm := func() reg.Register { return pick(r, p11YmmRegs[:5]) }
 	zmm := func() reg.Register { return pick(r, p11ZmmRegs) }
 	mem := func() operand.Mem {
+		if len(globals) > 0 && r.chance(1, 6) {
+			return pick(r, globals)
+		}
 		m := operand.Mem{Base: gp(), Disp: pick(r, []int{0, 8, -16, 128, 4096, -1 << 20})}
 		if r.chance(1, 2) {
 			m.Index = pick(r, []reg.Register{reg.RBX, reg.RCX, reg.RSI, reg.R9})
@@ -187,26 +406,35 @@ func p11GenAsmBody(r *rng, ctx *build.Context, st map[string]int, virt bool) {
 		}
 		return m
 	}
+	var branchOps []string
+	for _, b := range p11BranchOps() {
+		if !b.rel8only {
+			branchOps = append(branchOps, b.opcode)
+		}
+	}
 	nlabels := r.intn(4)
 	var labels []string
-	for k := 0; k < nlabels; k++ {
-		labels = append(labels, fmt.Sprintf("l%d", k))
+	for len(labels) < nlabels {
+		l := pick(r, p11AsmLabelPool)
+		dup := false
+		for _, x := range labels {
+			dup = dup || x == l
+		}
+		if !dup {
+			labels = append(labels, l)
+		}
 	}
 	placed := map[string]bool{}
 	n := r.rangeIn(1, 16)
-	for k := 0; k < n; k++ {
-		// place a label?
-		if len(labels) > 0 && r.chance(1, 4) {
-			l := pick(r, labels)
-			if !placed[l] {
-				placed[l] = true
-				ctx.Label(l)
-			}
-		}
-		if r.chance(1, 8) {
-			ctx.Comment(p11GenCommentLines(r)...)
-		}
-		switch r.intn(22) {
+	// a long run of instructions without label, comment, terminal or unconditional jump: one flushed block of
+	// more than 64 buffered instructions
+	longAt, longLen := -1, 0
+	if r.chance(1, 12) {
+		longAt, longLen = r.intn(n), r.rangeIn(65, 200)
+		st["asm_long_blocks"]++
+	}
+	plain := func() {
+		switch r.intn(19) {
 		case 0:
 			ctx.ADDQ(gpv(), gpv())
 		case 1:
@@ -239,35 +467,46 @@ func p11GenAsmBody(r *rng, ctx *build.Context, st map[string]int, virt bool) {
 			ctx.VADDPD_Z(zmm(), zmm(), pick(r, p11KRegs), zmm())
 		case 15:
 			ctx.IMUL3Q(operand.I32(r.rangeIn(-1000, 1000)), gpv(), gpv())
-		case 16, 17, 18:
-			if len(labels) > 0 {
-				l := operand.LabelRef(pick(r, labels))
-				switch r.intn(5) {
-				case 0:
-					ctx.JMP(l)
-				case 1:
-					ctx.JNE(l)
-				case 2:
-					ctx.JLT(l)
-				case 3:
-					ctx.JCC(l)
-				default:
-					ctx.JEQ(l)
-				}
-				st["asm_branches"]++
-			} else {
-				ctx.TESTQ(gpv(), gpv())
-			}
-		case 19:
+		case 16:
 			ctx.MOVL(operand.U32(r.u64()), reg.ECX)
-		case 20:
+		case 17:
 			ctx.BSWAPQ(gpv())
 		default:
+			ctx.TESTQ(gpv(), gpv())
+		}
+	}
+	for k := 0; k < n; k++ {
+		if k == longAt {
+			for j := 0; j < longLen; j++ {
+				plain()
+			}
+		}
+		// place a label?
+		if len(labels) > 0 && r.chance(1, 4) {
+			l := pick(r, labels)
+			if !placed[l] {
+				placed[l] = true
+				ctx.Label(l)
+			}
+		}
+		if r.chance(1, 8) {
+			ctx.Comment(p11GenCommentLines(r)...)
+		}
+		switch r.intn(22) {
+		case 16, 17, 18:
+			if len(labels) > 0 {
+				p11Branch(ctx, st, pick(r, branchOps), pick(r, labels))
+			} else {
+				plain()
+			}
+		case 19:
 			if r.chance(1, 3) {
 				ctx.RET()
 			} else {
 				ctx.SUBQ(gpv(), gpv())
 			}
+		default:
+			plain()
 		}
 	}
 	// every referenced label must be bound to an instruction
@@ -280,68 +519,122 @@ func p11GenAsmBody(r *rng, ctx *build.Context, st map[string]int, virt bool) {
 	ctx.RET()
 }
 
-func p11GenAsmProgram(r *rng, st map[string]int, witnessF10 bool) *build.Context {
-	ctx := build.NewContext()
+// p11AsmFunction opens a function with a generated name, attributes, signature and frame, and records what was
+// asked for.
+func p11AsmFunction(r *rng, c *p11AsmCase, k int, attrs attr.Attribute) {
+	ctx := c.ctx
+	name := fmt.Sprintf("%s%d", pick(r, p11AsmFuncPool), k)
+	if k == 0 && r.chance(1, 3) {
+		name = pick(r, p11AsmFuncPool)
+	}
+	ctx.Function(name)
+	if attrs != 0 {
+		ctx.Attributes(attrs)
+	}
+	sig := pick(r, p11SigPool[:7])
+	ctx.SignatureExpr(sig)
+	w := p11Want{name: name}
+	w.args, _ = p11ArgBytes("func " + strings.TrimPrefix(sig, "func"))
+	if r.chance(1, 3) {
+		for j := r.rangeIn(1, 2); j > 0; j-- {
+			sz := 8 * r.rangeIn(1, 40)
+			ctx.AllocLocal(sz)
+			w.frame += sz
+		}
+	}
+	c.want = append(c.want, w)
+}
+
+func p11GenAsmAttr(r *rng) attr.Attribute {
+	if r.chance(1, 10) {
+		return attr.Attribute(r.u64())
+	}
+	return pick(r, p11AsmAttrPool)
+}
+
+// p11GenF10 is the witness of finding F10: a label referenced only by CALL.
+func p11GenF10(r *rng, st map[string]int) *p11AsmCase {
+	c := &p11AsmCase{ctx: build.NewContext(), tag: "f10"}
+	p11AsmFunction(r, c, 0, attr.NOSPLIT)
+	ctx := c.ctx
+	ctx.XORL(reg.EAX, reg.EAX)
+	ctx.CALL(operand.LabelRef("sub"))
+	ctx.RET()
+	ctx.Label("sub")
+	ctx.ADDQ(operand.I8(1), reg.RAX)
+	ctx.RET()
+	st["asm_call_label"]++
+	return c
+}
+
+// p11GenHazard: one function that branches with `opcode` to a label with a hazardous name.
+func p11GenHazard(r *rng, st map[string]int, h p11Hazard, opcode string) *p11AsmCase {
+	c := &p11AsmCase{ctx: build.NewContext(), tag: "hazard=" + h.class + "/" + hexs(h.name) + "/" + opcode}
+	// a named flag, so that textflag.h is included (macro names are only macros then)
+	p11AsmFunction(r, c, 0, attr.NOSPLIT)
+	ctx := c.ctx
+	ctx.XORL(reg.EAX, reg.EAX)
+	p11Branch(ctx, st, opcode, h.name)
+	ctx.ADDQ(operand.I8(1), reg.RAX)
+	ctx.Label(h.name)
+	ctx.RET()
+	st["asm_hazard_files"]++
+	st["hazard_"+h.class]++
+	return c
+}
+
+// p11GenShortBranches: every branch opcode once, each to a label two instructions away (the only shape in which
+// the rel8-only opcodes can be used).
+func p11GenShortBranches(r *rng, st map[string]int) *p11AsmCase {
+	c := &p11AsmCase{ctx: build.NewContext(), tag: "plain"}
+	p11AsmFunction(r, c, 0, p11GenAsmAttr(r))
+	ctx := c.ctx
+	for i, b := range p11BranchOps() {
+		l := fmt.Sprintf("s%d", i)
+		p11Branch(ctx, st, b.opcode, l)
+		ctx.ADDQ(operand.I8(1), reg.RAX)
+		ctx.Label(l)
+		ctx.SUBQ(operand.I8(1), reg.RBX)
+	}
+	ctx.RET()
+	st["asm_short_branch_files"]++
+	return c
+}
+
+func p11GenAsmProgram(r *rng, st map[string]int) *p11AsmCase {
+	c := &p11AsmCase{ctx: build.NewContext(), tag: "plain"}
+	ctx := c.ctx
 	if r.chance(1, 3) {
 		ctx.ConstraintExpr(pick(r, p11ConstraintPool))
 	}
+	var globals []operand.Mem
 	nf := r.rangeIn(1, 3)
 	for k := 0; k < nf; k++ {
-		if r.chance(1, 5) {
-			ctx.StaticGlobal(fmt.Sprintf("tbl%d", k))
-			ctx.DataAttributes(attr.RODATA | attr.NOPTR)
+		if r.chance(1, 4) {
+			m := ctx.StaticGlobal(fmt.Sprintf("%s%d", pick(r, p11AsmDataPool), k))
+			ctx.DataAttributes(pick(r, p11AsmDataAttrPool))
 			for j := r.rangeIn(1, 4); j > 0; j-- {
 				ctx.AppendDatum(operand.U64(r.u64()))
 			}
+			globals = append(globals, m)
+			st["asm_globals"]++
 		}
-		ctx.Function(fmt.Sprintf("f%d", k))
-		switch r.intn(4) {
-		case 0:
-		case 1, 2:
-			ctx.Attributes(attr.NOSPLIT)
-		default:
-			ctx.Attributes(attr.NOSPLIT | attr.NOFRAME)
-		}
-		ctx.SignatureExpr(pick(r, p11SigPool[:7]))
-		if r.chance(1, 3) {
-			ctx.AllocLocal(8 * r.rangeIn(1, 40))
-		}
-		if witnessF10 && k == 0 {
-			// F10: a label referenced only by CALL
-			ctx.XORL(reg.EAX, reg.EAX)
+		p11AsmFunction(r, c, k, p11GenAsmAttr(r))
+		if r.chance(1, 100) {
+			// F10 as one function of an otherwise ordinary file: such a file is judged function by function.
+			// (No other branch in this function: after an undefined label the assembler also rejects every
+			// other branch of the function, which would blur the classification.)
 			ctx.CALL(operand.LabelRef("sub"))
 			ctx.RET()
 			ctx.Label("sub")
 			ctx.ADDQ(operand.I8(1), reg.RAX)
 			ctx.RET()
+			st["asm_call_label"]++
 			continue
 		}
-		if r.chance(1, 1000) {
-			ctx.CALL(operand.LabelRef("sub"))
-			ctx.RET()
-			ctx.Label("sub")
-			st["asm_call_label"]++
-		}
-		p11GenAsmBody(r, ctx, st, r.chance(1, 3))
+		p11GenAsmBody(r, ctx, st, r.chance(1, 3), globals)
 	}
-	return ctx
-}
-
-func p11NonBranchLabelRefs(f *ir.File) map[string][]string {
-	m := map[string][]string{}
-	for _, fn := range f.Functions() {
-		for _, i := range fn.Instructions() {
-			if i.IsBranch {
-				continue
-			}
-			for _, op := range i.Operands {
-				if l, ok := op.(operand.LabelRef); ok {
-					m[string(l)] = append(m[string(l)], i.Opcode)
-				}
-			}
-		}
-	}
-	return m
+	return c
 }
 
 // p11Prog is one line of the assembler's -S listing.
@@ -356,12 +649,13 @@ type p11Sym struct {
 	size    int
 	locals  int
 	argsize int
+	funcid  int
 	progs   []p11Prog
 	code    []byte
 }
 
 var (
-	reSymHdr  = regexp.MustCompile(`^(\S+) STEXT (.*)size=(\d+) args=0x([0-9a-f]+) locals=0x([0-9a-f]+)`)
+	reSymHdr  = regexp.MustCompile(`^(\S+) STEXT (.*)size=(\d+) args=0x([0-9a-f]+) locals=0x([0-9a-f]+) funcid=0x([0-9a-f]+)`)
 	reAnyHdr  = regexp.MustCompile(`^\S+ S[A-Z]+ `)
 	reProg    = regexp.MustCompile(`^\t0x([0-9a-f]+) (\d+) \(([^()]*):(\d+)\)\t(\S+)(?:\t(.*))?$`)
 	reHexLine = regexp.MustCompile(`^\t0x([0-9a-f]{4,}) ((?:[0-9a-f]{2} )+)`)
@@ -385,7 +679,8 @@ func p11ParseListing(out string) []p11Sym {
 				as = -1 // ArgsSizeUnknown: the TEXT line has no "-args" part
 			}
 			locals, _ := strconv.ParseInt(m[5], 16, 64)
-			syms = append(syms, p11Sym{name: name, flags: m[2], size: size, argsize: int(as), locals: int(locals)})
+			funcid, _ := strconv.ParseInt(m[6], 16, 64)
+			syms = append(syms, p11Sym{name: name, flags: m[2], size: size, argsize: int(as), locals: int(locals), funcid: int(funcid)})
 			intext = true
 			continue
 		}
@@ -454,6 +749,356 @@ func p11Binutils(path string, syms []p11Sym) (map[int]p11Gnu, error) {
 	return m, nil
 }
 
+func p11NonBranchLabelRefs(f *ir.File) map[string][]string {
+	m := map[string][]string{}
+	for _, fn := range f.Functions() {
+		for _, i := range fn.Instructions() {
+			if i.IsBranch {
+				continue
+			}
+			for _, op := range i.Operands {
+				if l, ok := op.(operand.LabelRef); ok {
+					m[string(l)] = append(m[string(l)], i.Opcode)
+				}
+			}
+		}
+	}
+	return m
+}
+
+var (
+	// `file.s:7: message` / `file.s:5:7: message` (lexer, parser) and `asm: pkg.fn: message: 00002 (file.s:5)\t…` (encoder)
+	reAsmErrParse  = regexp.MustCompile(`^\S+\.s:(\d+)(?::\d+)?: (.*)$`)
+	reAsmErrEncode = regexp.MustCompile(`^asm: [^:]+: ([^:]+): \d+ \(\S+\.s:(\d+)\)`)
+	reAsmTrailer   = regexp.MustCompile(`^asm: (assembly of \S+ failed|assembly failed|too many errors)$`)
+	reUndefLabel   = regexp.MustCompile(`^undefined label (.+)$`)
+)
+
+// p11Slug: the first (at most two) purely alphabetic words of an assembler message.
+func p11Slug(msg string) string {
+	var ws []string
+	for _, w := range strings.Fields(msg) {
+		w = strings.TrimRight(w, ",:;")
+		ok := w != ""
+		for _, c := range w {
+			ok = ok && (c >= 'a' && c <= 'z' || c >= 'A' && c <= 'Z')
+		}
+		if !ok || len(ws) == 2 {
+			break
+		}
+		ws = append(ws, strings.ToLower(w))
+	}
+	if len(ws) == 0 {
+		return "message"
+	}
+	return strings.Join(ws, "-")
+}
+
+// p11LexRewrite: what the assembler's lexer makes of an identifier (U+00B7 -> '.', U+2215 -> '/').
+func p11LexRewrite(s string) string {
+	return strings.NewReplacer("·", ".", "∕", "/").Replace(s)
+}
+
+// p11ClassifyReject explains a rejection by `go tool asm` of the printed text of ONE function (plus data
+// sections).  Every message of the assembler must be explained by the same cause, otherwise the answer is "other":
+//
+//	label-name/<class>/<slug>     every message points at a label line `L:` or at an instruction whose operand is the
+//	                              label L (or names L as undefined), and L's name is hazardous (class of the NAME)
+//	undefined-label/nonbranch-ref=<opcodes>
+//	                              every message says that a label is undefined which the program references from
+//	                              non-branch instructions only (F10)
+func p11ClassifyReject(msg, text string, file *ir.File) string {
+	refs := p11NonBranchLabelRefs(file)
+	labels := map[string]bool{}
+	branchRef := map[string]bool{}
+	for _, fn := range file.Functions() {
+		for _, n := range fn.Nodes {
+			if l, ok := n.(ir.Label); ok {
+				labels[string(l)] = true
+			}
+		}
+		for _, i := range fn.Instructions() {
+			for _, op := range i.Operands {
+				if l, ok := op.(operand.LabelRef); ok {
+					labels[string(l)] = true
+					if i.IsBranch {
+						branchRef[string(l)] = true
+					}
+				}
+			}
+		}
+	}
+	lines := strings.Split(text, "\n")
+	culpritAt := func(n int) string {
+		if n < 1 || n > len(lines) {
+			return ""
+		}
+		l := lines[n-1]
+		if strings.HasPrefix(l, "\t") {
+			fs := strings.Fields(l)
+			if len(fs) >= 2 {
+				rest := strings.TrimSpace(strings.TrimPrefix(strings.TrimSpace(l), fs[0]))
+				if labels[rest] {
+					return rest
+				}
+			}
+			return ""
+		}
+		if strings.HasSuffix(l, ":") && labels[strings.TrimSuffix(l, ":")] {
+			return strings.TrimSuffix(l, ":")
+		}
+		return ""
+	}
+	cause, slug, n := "", "", 0
+	for _, l := range strings.Split(strings.TrimSpace(msg), "\n") {
+		l = strings.TrimRight(l, "\r")
+		if l == "" || reAsmTrailer.MatchString(l) {
+			continue
+		}
+		var line int
+		var m string
+		if g := reAsmErrParse.FindStringSubmatch(l); g != nil {
+			line, _ = strconv.Atoi(g[1])
+			m = g[2]
+		} else if g := reAsmErrEncode.FindStringSubmatch(l); g != nil {
+			line, _ = strconv.Atoi(g[2])
+			m = g[1]
+		} else {
+			return "other"
+		}
+		this := ""
+		if g := reUndefLabel.FindStringSubmatch(m); g != nil {
+			for name := range labels {
+				rw := p11LexRewrite(name)
+				if g[1] != name && g[1] != rw && g[1] != "p"+rw {
+					continue
+				}
+				if c := p11HazardClass(name); c != "" {
+					this = "label-name/" + c
+				} else if ops := refs[name]; len(ops) > 0 && !branchRef[name] {
+					this = "undefined-label/nonbranch-ref=" + strings.Join(ops, ",")
+				}
+			}
+		} else if name := culpritAt(line); name != "" {
+			if c := p11HazardClass(name); c != "" {
+				this = "label-name/" + c
+			} else if ops := refs[name]; len(ops) > 0 && !branchRef[name] {
+				// the instruction that refers to the pruned label cannot be encoded either
+				this = "undefined-label/nonbranch-ref=" + strings.Join(ops, ",")
+			}
+		}
+		if this == "" || (cause != "" && this != cause) {
+			return "other"
+		}
+		if n == 0 {
+			slug = p11Slug(m)
+		}
+		cause = this
+		n++
+	}
+	if cause == "" {
+		return "other"
+	}
+	if strings.HasPrefix(cause, "label-name/") {
+		return cause + "/" + slug
+	}
+	return cause
+}
+
+// p11Asm measures one compiled file: print, assemble, decode, and emit the acceptor requests.
+type p11Asm struct {
+	o            *out
+	st           map[string]int
+	dir, include string
+	seq          int
+	cfg          printer.Config
+}
+
+// subFile: the data sections of a file and ONE of its functions.
+func p11SubFile(file *ir.File, fn *ir.Function) *ir.File {
+	sub := ir.NewFile()
+	sub.Constraints = file.Constraints
+	sub.Includes = append([]string(nil), file.Includes...)
+	for _, s := range file.Sections {
+		if g, ok := s.(*ir.Global); ok {
+			sub.AddSection(g)
+		} else if s == ir.Section(fn) {
+			sub.AddSection(fn)
+		}
+	}
+	return sub
+}
+
+func (a *p11Asm) measure(file *ir.File, tag string, want []p11Want, split bool) error {
+	o, st := a.o, a.st
+	text, ok := p11EmitPrint(o, a.cfg, file, st)
+	if !ok {
+		st["print_dropped"]++
+		return nil
+	}
+	e := &p11Enc{}
+	p11EncodeCfg(e, a.cfg)
+	if err := p11EncodeFile(e, file); err != nil {
+		return err
+	}
+	a.seq++
+	base := filepath.Join(a.dir, fmt.Sprintf("f%d", a.seq))
+	spath, opath := base+".s", base+".o"
+	if err := os.WriteFile(spath, []byte(text), 0o644); err != nil {
+		return err
+	}
+	if os.Getenv("AVOH_KEEP") == "" {
+		defer func() {
+			os.Remove(opath)
+			os.Remove(spath)
+			os.Remove(base + ".bin")
+		}()
+	}
+	cmd := exec.Command("go", "tool", "asm", "-S", "-I", a.include, "-p", "p", "-o", opath, spath)
+	msg, err := cmd.CombinedOutput()
+	fns := file.Functions()
+	if err != nil {
+		st["asm_rejected"]++
+		first := strings.SplitN(strings.TrimSpace(string(msg)), "\n", 2)[0]
+		if len(fns) > 1 && split {
+			// judge function by function: a rejection is attributed to the function(s) that are rejected alone
+			st["asm_split_files"]++
+			before := st["asm_rejected"]
+			for i, fn := range fns {
+				var w []p11Want
+				if i < len(want) {
+					w = want[i : i+1]
+				}
+				if err := a.measure(p11SubFile(file, fn), tag, w, false); err != nil {
+					return err
+				}
+			}
+			if st["asm_rejected"] == before {
+				o.emit("accept-assembles whole-file-rejected-parts-accepted "+hexs(first)+" "+tag+" "+e.String(), "ok")
+			}
+			return nil
+		}
+		reason := p11ClassifyReject(string(msg), text, file)
+		st["reject_"+strings.SplitN(reason, "/", 3)[0]]++
+		o.emit("accept-assembles "+reason+" "+hexs(first)+" "+tag+" "+e.String(), "ok")
+		return nil
+	}
+	st["asm_accepted"]++
+	o.emit("accept-assembles ok - "+tag+" "+e.String(), "ok")
+	syms := p11ParseListing(string(msg))
+	gnu, err := p11Binutils(base+".bin", syms)
+	if err != nil {
+		return err
+	}
+	en := &p11Enc{}
+	en.int(len(syms))
+	pcbase := p11VMA
+	decodeOK := "ok"
+	for si, s := range syms {
+		if len(s.code) != s.size {
+			decodeOK = fmt.Sprintf("code-size/%s", s.name)
+		}
+		en.str(s.name)
+		en.int(s.argsize)
+		en.int(s.locals)
+		flag := func(w string) string { return p11B01(strings.Contains(" "+s.flags, " "+w+" ")) }
+		en.add(flag("nosplit"), flag("dupok"), flag("topframe"), p11B01(s.funcid == 0x16))
+		if si < len(want) {
+			en.int(want[si].frame)
+			en.int(want[si].args)
+		} else {
+			en.add("-1", "-1")
+		}
+		var ents []string
+		nent := 0
+		// machine-code instruction starts according to binutils
+		var starts []int
+		for pc := 0; pc < s.size; pc++ {
+			if _, ok := gnu[pcbase+pc]; ok {
+				starts = append(starts, pc)
+			}
+		}
+		var wantStarts []int
+		for _, p := range s.progs {
+			if p.size == 0 {
+				continue
+			}
+			wantStarts = append(wantStarts, p.pc)
+			t := 0
+			if g := gnu[pcbase+p.pc]; strings.HasPrefix(g.mnemonic, "j") {
+				// a jump: relative target, or (indirect jump, undecodable operand) the impossible target
+				t = 1 << 40
+				if strings.HasPrefix(g.ops, "0x") {
+					v, err := strconv.ParseUint(strings.Fields(g.ops)[0][2:], 16, 64)
+					if err == nil && int(int64(v))-pcbase >= 0 {
+						t = int(int64(v)) - pcbase + 1
+					}
+				}
+				st["asm_machine_jumps"]++
+			}
+			ents = append(ents, itoa(p.line), itoa(p.pc), itoa(t))
+			nent++
+		}
+		if fmt.Sprint(starts) != fmt.Sprint(wantStarts) {
+			decodeOK = fmt.Sprintf("boundaries/%s", s.name)
+		}
+		pcbase += s.size
+		en.int(nent)
+		en.add(ents...)
+		var fn *ir.Function
+		if si < len(fns) {
+			fn = fns[si]
+		}
+		if fn == nil {
+			en.add("0", "0")
+			continue
+		}
+		is := fn.Instructions()
+		idx := map[*ir.Instruction]int{}
+		for i, in := range is {
+			idx[in] = i
+		}
+		var brs []string
+		nbr := 0
+		for i, in := range is {
+			if l := in.TargetLabel(); l != nil {
+				brs = append(brs, itoa(i), hexs(string(*l)))
+				nbr++
+			}
+		}
+		en.int(nbr)
+		en.add(brs...)
+		var lts []string
+		nlt := 0
+		// deterministic order: as the labels occur in the node list
+		for _, l := range fn.Labels() {
+			if t, ok := fn.LabelTarget[l]; ok {
+				lts = append(lts, hexs(string(l)), itoa(idx[t]))
+				nlt++
+			}
+		}
+		en.int(nlt)
+		en.add(lts...)
+		st["asm_functions"]++
+		st["asm_instructions"] += len(is)
+		blk := 0
+		for _, n := range fn.Nodes {
+			if in, ok := n.(*ir.Instruction); ok && !in.IsTerminal && !in.IsUnconditionalBranch() {
+				blk++
+				if blk == 65 {
+					st["asm_blocks_over_64"]++
+				}
+			} else {
+				blk = 0
+			}
+		}
+	}
+	// the assembler's Prog boundaries are the machine code's instruction boundaries
+	o.emit("accept-decode "+decodeOK+" "+tag+" "+e.String(), "ok")
+	o.emit("accept-asm "+tag+" "+e.String()+" "+hexs(text)+" "+en.String(), "ok")
+	return nil
+}
+
 func p11RunC11Asm(args []string) error {
 	f := newStdFlags("c11asm")
 	work := f.fs.String("work", ".", "scratch directory for .s/.o files")
@@ -471,15 +1116,80 @@ func p11RunC11Asm(args []string) error {
 	if err := os.MkdirAll(dir, 0o755); err != nil {
 		return err
 	}
-	include := filepath.Join(goroot(), "pkg", "include")
-	for k := 0; k < *f.n; k++ {
-		ctx := p11GenAsmProgram(r, st, k == 0)
-		file, err := ctx.Result()
+	a := &p11Asm{o: o, st: st, dir: dir, include: filepath.Join(goroot(), "pkg", "include"), cfg: printer.Config{Name: "avo", Pkg: "p"}}
+	// the fixed part of every run: the F10 witness, every hazardous label with JMP and with one conditional branch,
+	// every branch opcode in the short shape
+	var fixed []func() *p11AsmCase
+	fixed = append(fixed, func() *p11AsmCase { return p11GenF10(r, st) })
+	var cond []string
+	for _, b := range p11BranchOps() {
+		if b.opcode != "JMP" && !b.rel8only {
+			cond = append(cond, b.opcode)
+		}
+	}
+	for _, h := range p11HazardLabels {
+		h := h
+		fixed = append(fixed, func() *p11AsmCase { return p11GenHazard(r, st, h, "JMP") })
+		if len(cond) > 0 {
+			fixed = append(fixed, func() *p11AsmCase { return p11GenHazard(r, st, h, pick(r, cond)) })
+		}
+	}
+	fixed = append(fixed, func() *p11AsmCase { return p11GenShortBranches(r, st) })
+	st["branch_opcodes_in_table"] = len(p11BranchOps())
+	var corpus []func() *p11AsmCase
+	lines, isCorpus := p11CorpusLines(*f.replay)
+	for _, l := range lines {
+		// corpus: `prog <seed>` | `short <seed>` | `hazard <label-hex> <opcode> <seed>`
+		fs := strings.Fields(l)
+		if len(fs) < 2 {
+			continue
+		}
+		seed, err := strconv.ParseUint(fs[len(fs)-1], 10, 64)
+		if err != nil {
+			continue
+		}
+		switch {
+		case fs[0] == "prog" && len(fs) == 2:
+			corpus = append(corpus, func() *p11AsmCase { return p11GenAsmProgram(newRng(seed), st) })
+		case fs[0] == "short" && len(fs) == 2:
+			corpus = append(corpus, func() *p11AsmCase { return p11GenShortBranches(newRng(seed), st) })
+		case fs[0] == "hazard" && len(fs) == 4:
+			name, err := unhexs(fs[1])
+			if err != nil {
+				continue
+			}
+			h := p11Hazard{name, p11HazardClass(name)}
+			if h.class == "" {
+				h.class = "unclassified"
+			}
+			op := fs[2]
+			corpus = append(corpus, func() *p11AsmCase { return p11GenHazard(newRng(seed), st, h, op) })
+		}
+	}
+	n := *f.n
+	if isCorpus {
+		n = len(corpus)
+	}
+	for k := 0; k < n; k++ {
+		var c *p11AsmCase
+		switch {
+		case isCorpus:
+			c = corpus[k]()
+		case k < len(fixed):
+			c = fixed[k]()
+		case k%40 == 7:
+			c = p11GenShortBranches(r, st)
+		case k%40 == 23:
+			c = p11GenHazard(r, st, pick(r, p11HazardLabels), pick(r, append(cond, "JMP")))
+		default:
+			c = p11GenAsmProgram(r, st)
+		}
+		st["generated"]++
+		file, err := c.ctx.Result()
 		if err != nil {
 			st["build_error"]++
 			continue
 		}
-		refs := p11NonBranchLabelRefs(file)
 		if err := pass.Compile.Execute(file); err != nil {
 			st["compile_error"]++
 			continue
@@ -491,136 +1201,16 @@ func p11RunC11Asm(args []string) error {
 				st["labeltarget_error"]++
 			}
 		}
-		cfg := printer.Config{Name: "avo", Pkg: "p"}
-		text, ok := p11EmitPrint(o, cfg, file, st)
-		if !ok {
-			continue
-		}
-		e := &p11Enc{}
-		p11EncodeCfg(e, cfg)
-		if err := p11EncodeFile(e, file); err != nil {
+		if err := a.measure(file, c.tag, c.want, true); err != nil {
 			return err
-		}
-		spath := filepath.Join(dir, fmt.Sprintf("f%d.s", k))
-		opath := filepath.Join(dir, fmt.Sprintf("f%d.o", k))
-		if err := os.WriteFile(spath, []byte(text), 0o644); err != nil {
-			return err
-		}
-		cmd := exec.Command("go", "tool", "asm", "-S", "-I", include, "-p", "p", "-o", opath, spath)
-		msg, err := cmd.CombinedOutput()
-		if err != nil {
-			st["asm_rejected"]++
-			reason := "other"
-			if m := p11ReUndef.FindStringSubmatch(string(msg)); m != nil {
-				if ops := refs[m[1]]; len(ops) > 0 {
-					reason = "undefined-label/nonbranch-ref=" + strings.Join(ops, ",")
-				} else {
-					reason = "undefined-label/other"
-				}
-			}
-			first := strings.SplitN(strings.TrimSpace(string(msg)), "\n", 2)[0]
-			o.emit("accept-assembles "+reason+" "+hexs(first)+" "+e.String(), "ok")
-			continue
-		}
-		st["asm_accepted"]++
-		o.emit("accept-assembles ok - "+e.String(), "ok")
-		syms := p11ParseListing(string(msg))
-		gnu, err := p11Binutils(filepath.Join(dir, fmt.Sprintf("f%d.bin", k)), syms)
-		if err != nil {
-			return err
-		}
-		fns := file.Functions()
-		a := &p11Enc{}
-		a.int(len(syms))
-		base := p11VMA
-		decodeOK := "ok"
-		for si, s := range syms {
-			if len(s.code) != s.size {
-				decodeOK = fmt.Sprintf("code-size/%s", s.name)
-			}
-			a.str(s.name)
-			a.int(s.argsize)
-			a.int(s.locals)
-			a.add(p11B01(strings.Contains(s.flags, "nosplit")))
-			var ents []string
-			nent := 0
-			// machine-code instruction starts according to binutils
-			var starts []int
-			for pc := 0; pc < s.size; pc++ {
-				if _, ok := gnu[base+pc]; ok {
-					starts = append(starts, pc)
-				}
-			}
-			var want []int
-			for _, p := range s.progs {
-				if p.size == 0 {
-					continue
-				}
-				want = append(want, p.pc)
-				t := 0
-				if g := gnu[base+p.pc]; strings.HasPrefix(g.mnemonic, "j") && strings.HasPrefix(g.ops, "0x") {
-					v, err := strconv.ParseUint(strings.Fields(g.ops)[0][2:], 16, 64)
-					if err == nil {
-						t = int(int64(v)) - base + 1
-						if t < 1 {
-							t = 1 << 40
-						}
-					}
-				}
-				ents = append(ents, itoa(p.line), itoa(p.pc), itoa(t))
-				nent++
-			}
-			if fmt.Sprint(starts) != fmt.Sprint(want) {
-				decodeOK = fmt.Sprintf("boundaries/%s", s.name)
-			}
-			base += s.size
-			a.int(nent)
-			a.add(ents...)
-			var fn *ir.Function
-			if si < len(fns) {
-				fn = fns[si]
-			}
-			if fn == nil {
-				a.add("0", "0")
-				continue
-			}
-			is := fn.Instructions()
-			idx := map[*ir.Instruction]int{}
-			for i, in := range is {
-				idx[in] = i
-			}
-			var brs []string
-			nbr := 0
-			for i, in := range is {
-				if l := in.TargetLabel(); l != nil {
-					brs = append(brs, itoa(i), hexs(string(*l)))
-					nbr++
-				}
-			}
-			a.int(nbr)
-			a.add(brs...)
-			var lts []string
-			nlt := 0
-			// deterministic order: as the labels occur in the node list
-			for _, l := range fn.Labels() {
-				if t, ok := fn.LabelTarget[l]; ok {
-					lts = append(lts, hexs(string(l)), itoa(idx[t]))
-					nlt++
-				}
-			}
-			a.int(nlt)
-			a.add(lts...)
-			st["asm_functions"]++
-			st["asm_instructions"] += len(is)
-		}
-		// the assembler's Prog boundaries are the machine code's instruction boundaries
-		o.emit("accept-decode "+decodeOK+" "+e.String(), "ok")
-		o.emit("accept-asm "+e.String()+" "+hexs(text)+" "+a.String(), "ok")
-		if os.Getenv("AVOH_KEEP") == "" {
-			os.Remove(opath)
-			os.Remove(spath)
-			os.Remove(filepath.Join(dir, fmt.Sprintf("f%d.bin", k)))
 		}
 	}
+	seen := 0
+	for _, b := range p11BranchOps() {
+		if st["br_"+b.opcode] > 0 {
+			seen++
+		}
+	}
+	st["branch_opcodes_used"] = seen
 	return writeJSON(*f.stats, st)
 }
